@@ -8,11 +8,22 @@ props = [json.loads(l) for l in open(os.path.join(ROOT, "properties.jsonl"))]
 CLAIMED = json.load(open(os.path.join(ROOT, "tools", "claimed.json")))
 NA = json.load(open(os.path.join(ROOT, "tools", "not_applicable.json")))
 
+def module_level(pid):
+    """LEVEL of contracts/cNN.py = the `level` the check writes into its evidence file (verif_main.py)."""
+    import re
+    path = os.path.join(ROOT, "contracts", pid.lower() + ".py")
+    m = re.search(r'^LEVEL = "(\w+)"', open(path).read(), re.M) if os.path.exists(path) else None
+    return m.group(1) if m else "other"
+
+
 checks = []
 for p in props:
     c = CLAIMED.get(p["id"])
     if not c:
         continue
+    if module_level(p["id"]) != c["category"]:
+        sys.exit(f"{p['id']}: claimed category {c['category']!r} but contracts/{p['id'].lower()}.py writes evidence level "
+                 f"{module_level(p['id'])!r}; make tools/claimed.json and the module agree")
     checks.append({
         "property_id": p["id"],
         "quick_cmd": f"./check {p['id']} --tier quick",
